@@ -174,4 +174,6 @@ CHECKS.update({
    note="Trusted: TLC, lib/sbparse.py + the check's descriptor parser, the reader's tree digest. Block sizes 1k/2k/4k with small -g; meta_bg, sparse_super2 (0/1/2 backups), flex_bg, 64bit.",
    technique="TLA+ model of backup placement and refresh rules (TLC) + trace validation of real tool sequences and recoveries from every backup location"),
 })
+# only these are written to MANIFEST.json (a check enters the list after its quick tier has passed on /repo HEAD itself)
+REGISTERED = ["C02", "C03", "C04", "C07", "C08", "C09", "C10", "C11", "C12", "C13", "C14", "C15", "C16", "C17", "C18", "C19"]
 NA = {}
